@@ -13,6 +13,8 @@ def run(prop, tier):
     acc = common.Acc()
     jobs = [("table", 3 if tier == "quick" else 4), ("list", 5 if tier == "quick" else 8)]
     common.parallel(lambda j: common.run_harness(x, list(j), acc, "hash_bfs %s %d" % j, timeout=3000, crash_prop=prop), jobs)
+    from checks import indep
+    indep_rule = indep.add(prop, tier, acc)
     s = acc.stats
     cov = dict(states=s.get("states", 0), transitions=s.get("transitions", 0),
                traces_validated_against_impl=s.get("canon_on_replay_checks", 0) + s.get("table_mutating_transitions", 0) + s.get("list_transitions", 0),
@@ -22,7 +24,7 @@ def run(prop, tier):
                     "in every state: lookup of every key, keys(), values(), lookup_by_value with and without comparator vs an assoc array. "
                     "list: every content sequence over {NULL,a,b} up to length %d x every op. non-trivial = states with a collision chain of >= 2 / lists of >= 1 element. "
                     "UBSan/ASan no-recover decide 'no undefined behaviour'." % (jobs[0][1], jobs[1][1]),
-               exhaustive=True)
+               exhaustive=True, independent_objects=indep_rule.strip('; '))
     assumptions = ["bucket count is read from the real table; the three colliding keys are 1, 1+101, 1+2*101 (if the bucket count changed they would no longer collide: reported by table_states_with_collision_chain)",
                    "UB is judged by gcc's -fsanitize=undefined,address instrumentation"]
     if s.get("table_states_with_collision_chain", 0) == 0 and not acc.viols:
